@@ -2,6 +2,7 @@
 PROPERTY = "C07"
 LEVEL = "proof"
 FUNCTIONS = ['uxarray.io._ugrid._encode_ugrid',
+    'uxarray.io._ugrid._standardize_connectivity',
     'uxarray.io._exodus._read_exodus@coordxyz',
     'uxarray.io._exodus._read_exodus@coordxyz2',
     'uxarray.grid.grid.Grid.to_xarray@ugrid',
